@@ -12,7 +12,10 @@ require (
 	github.com/vmihailenco/msgpack/v5 v5.4.1
 )
 
-require github.com/RoaringBitmap/roaring v1.9.4
+require (
+	github.com/RoaringBitmap/roaring v1.9.4
+	golang.org/x/sys v0.33.0
+)
 
 require (
 	github.com/beorn7/perks v1.0.1 // indirect
@@ -36,7 +39,6 @@ require (
 	github.com/prometheus/procfs v0.16.1 // indirect
 	github.com/vmihailenco/tagparser/v2 v2.0.0 // indirect
 	go.etcd.io/bbolt v1.4.0 // indirect
-	golang.org/x/sys v0.33.0 // indirect
 	google.golang.org/protobuf v1.36.6 // indirect
 )
 
